@@ -2,6 +2,7 @@ package e1
 
 import (
 	"sort"
+	"strings"
 
 	"github.com/scigolib/hdf5/verifsim/disk"
 )
@@ -26,6 +27,11 @@ func ClobberClass(log []disk.LogEntry) string {
 	var ext []extent
 	for _, le := range log {
 		if le.Op != "write" || le.Err || le.Len == 0 {
+			continue
+		}
+		if le.Len == 1 && strings.HasSuffix(le.Fn, ".(*FileWriter).Close") {
+			// Close extends the file to the allocated end with one zero byte; that
+			// byte lies inside space reserved for whatever was allocated last
 			continue
 		}
 		s, e := le.Off, le.Off+int64(le.Len)
